@@ -5,8 +5,11 @@ import (
 	"context"
 	"encoding/json"
 	"fmt"
+	"runtime"
 	"sort"
 	"strings"
+	"sync"
+	"sync/atomic"
 	"syscall"
 
 	"github.com/containerd/stargz-snapshotter/fs/layer"
@@ -670,6 +673,7 @@ func (c *capture) judgeInodes(stateIno, statFileIno uint64) {
 
 // stateReport is what the state file said.
 type stateReport struct {
+	sf          *vnode
 	ok          bool
 	stateIno    uint64
 	statFileIno uint64
@@ -715,14 +719,8 @@ func (c *capture) judgeState(root *vnode, l layer.Layer, wantDigest string, want
 	if ents[0].Ino != feo.Attr.Ino {
 		c.violate("ino:readdir-vs-lookup", fmt.Sprintf("state file: Readdir ino %#x, Lookup %#x", ents[0].Ino, feo.Attr.Ino), nil)
 	}
-	rd, ok := sf.ops.(fusefs.NodeReader)
-	if !ok {
-		c.violate("state:file-unreadable", "state file node has no Read", nil)
-		return rep
-	}
 	before := l.Info()
-	dest := make([]byte, 1<<16)
-	rr, errno := rd.Read(bg, nil, dest, 0)
+	rr, dest, errno := c.readState(sf)
 	after := l.Info()
 	if errno != 0 {
 		c.violate("state:file-unreadable", fmt.Sprintf("Read(state file) = %s", errnoName(errno)), nil)
@@ -735,35 +733,11 @@ func (c *capture) judgeState(root *vnode, l layer.Layer, wantDigest string, want
 	}
 	data = append([]byte(nil), data...)
 	rr.Done()
-	rp := map[string]any{"state_file": string(data), "info_before": before.FetchedSize, "info_after": after.FetchedSize}
-	var doc map[string]any
-	if err := json.Unmarshal(data, &doc); err != nil {
-		c.violate("state:not-json", fmt.Sprintf("state file does not parse: %v: %q", err, data), rp)
+	fetched, ok := c.judgeStateData(data, &before, &after, wantDigest, wantSize, "extracted at once")
+	if !ok {
 		return rep
 	}
-	if d, _ := doc["digest"].(string); d != wantDigest {
-		c.violate("state:digest", fmt.Sprintf("state file digest %q, layer digest %q", d, wantDigest), rp)
-	}
-	if before.Digest.String() != wantDigest || before.Size != wantSize {
-		c.violate("state:layer-info", fmt.Sprintf("Layer.Info() = %s/%d, published %s/%d", before.Digest, before.Size, wantDigest, wantSize), rp)
-	}
-	sz, ok1 := doc["size"].(float64)
-	if !ok1 || int64(sz) != wantSize {
-		c.violate("state:size", fmt.Sprintf("state file size %v, blob size %d", doc["size"], wantSize), rp)
-	}
-	f, ok2 := doc["fetchedSize"].(float64)
-	fetched := int64(f)
-	switch {
-	case !ok2:
-		c.violate("state:fetched-size-missing", fmt.Sprintf("state file has no numeric fetchedSize: %q", data), rp)
-	case fetched < 0 || fetched > wantSize:
-		c.violate("state:fetched-size-out-of-range", fmt.Sprintf("fetchedSize %d not in [0,%d]", fetched, wantSize), rp)
-	case fetched < before.FetchedSize || fetched > after.FetchedSize:
-		c.violate("state:fetched-size-differs-from-info", fmt.Sprintf("fetchedSize %d, Layer.Info().FetchedSize was %d just before and %d just after", fetched, before.FetchedSize, after.FetchedSize), rp)
-	}
-	if e, _ := doc["error"].(string); e != "" {
-		c.r.Distinct("state_file_errors", e)
-	}
+	rep.sf = sf
 	rep.ok, rep.fetched = true, fetched
 	switch {
 	case fetched == wantSize:
@@ -774,4 +748,168 @@ func (c *capture) judgeState(root *vnode, l layer.Layer, wantDigest string, want
 		c.r.Count("state_fetched_zero", 1)
 	}
 	return rep
+}
+
+// readState calls the Read handler of the state file (through go-fuse's raw bridge when the
+// bridge driver is in use) and returns the ReadResult WITHOUT extracting its bytes: that is
+// the state in which the FUSE server holds a reply between the handler's return and the
+// write to /dev/fuse.
+func (c *capture) readState(sf *vnode) (fuse.ReadResult, []byte, syscall.Errno) {
+	dest := make([]byte, 1<<16)
+	if c.drv.bridge && sf.nodeID != 0 {
+		var oo fuse.OpenOut
+		in := fuse.OpenIn{InHeader: fuse.InHeader{NodeId: sf.nodeID}}
+		if st := c.drv.raw.Open(nil, &in, &oo); st != fuse.OK {
+			return nil, nil, syscall.Errno(st)
+		}
+		defer c.drv.raw.Release(nil, &fuse.ReleaseIn{InHeader: fuse.InHeader{NodeId: sf.nodeID}, Fh: oo.Fh})
+		rr, st := c.drv.raw.Read(nil, &fuse.ReadIn{InHeader: fuse.InHeader{NodeId: sf.nodeID}, Fh: oo.Fh, Offset: 0, Size: uint32(len(dest))}, dest)
+		if st != fuse.OK {
+			return nil, nil, syscall.Errno(st)
+		}
+		return rr, dest, 0
+	}
+	rd, ok := sf.ops.(fusefs.NodeReader)
+	if !ok {
+		return nil, nil, syscall.ENOSYS
+	}
+	rr, errno := rd.Read(bg, nil, dest, 0)
+	return rr, dest, errno
+}
+
+// judgeStateData judges one reply of the state file: valid JSON, layer digest, blob size,
+// 0 <= fetchedSize <= size and, when before/after are given, inside the bracket of the two
+// Layer.Info() calls around the Read handler.
+func (c *capture) judgeStateData(data []byte, before, after *layer.Info, wantDigest string, wantSize int64, how string) (int64, bool) {
+	rp := map[string]any{"state_file": string(data), "reply": how}
+	if before != nil {
+		rp["info_before"], rp["info_after"] = before.FetchedSize, after.FetchedSize
+	}
+	var doc map[string]any
+	if err := json.Unmarshal(data, &doc); err != nil {
+		c.violate("state:not-json", fmt.Sprintf("state file (%s) does not parse: %v: %q", how, err, data), rp)
+		return 0, false
+	}
+	if d, _ := doc["digest"].(string); d != wantDigest {
+		c.violate("state:digest", fmt.Sprintf("state file (%s) digest %q, layer digest %q", how, d, wantDigest), rp)
+	}
+	if before != nil && (before.Digest.String() != wantDigest || before.Size != wantSize) {
+		c.violate("state:layer-info", fmt.Sprintf("Layer.Info() = %s/%d, published %s/%d", before.Digest, before.Size, wantDigest, wantSize), rp)
+	}
+	sz, ok1 := doc["size"].(float64)
+	if !ok1 || int64(sz) != wantSize {
+		c.violate("state:size", fmt.Sprintf("state file (%s) size %v, blob size %d", how, doc["size"], wantSize), rp)
+	}
+	f, ok2 := doc["fetchedSize"].(float64)
+	fetched := int64(f)
+	switch {
+	case !ok2:
+		c.violate("state:fetched-size-missing", fmt.Sprintf("state file (%s) has no numeric fetchedSize: %q", how, data), rp)
+	case fetched < 0 || fetched > wantSize:
+		c.violate("state:fetched-size-out-of-range", fmt.Sprintf("fetchedSize %d not in [0,%d] (%s)", fetched, wantSize, how), rp)
+	case before != nil && (fetched < before.FetchedSize || fetched > after.FetchedSize):
+		c.violate("state:fetched-size-differs-from-info", fmt.Sprintf("fetchedSize %d (%s), Layer.Info().FetchedSize was %d just before and %d just after the Read", fetched, how, before.FetchedSize, after.FetchedSize), rp)
+	}
+	if e, _ := doc["error"].(string); e != "" {
+		c.r.Distinct("state_file_errors", e)
+	}
+	return fetched, true
+}
+
+// heldRead is a reply of the state file whose bytes have not been extracted yet.
+type heldRead struct {
+	rr            fuse.ReadResult
+	dest          []byte
+	before, after layer.Info
+	sf            *vnode
+}
+
+// holdStateRead performs the Read handler now and leaves the reply un-extracted (clause 5a).
+func (c *capture) holdStateRead(sf *vnode, l layer.Layer) *heldRead {
+	h := &heldRead{sf: sf}
+	h.before = l.Info()
+	rr, dest, errno := c.readState(sf)
+	h.after = l.Info()
+	if errno != 0 {
+		return nil
+	}
+	h.rr, h.dest = rr, dest
+	return h
+}
+
+// judgeHeld: after other requests were served (file data was read, so the fetched size may
+// have grown), the state file is stat'ed and read again, and only then the bytes of the
+// FIRST reply are extracted, as the FUSE server does after the handler returned. They must
+// still be the valid JSON of that first read.
+func (c *capture) judgeHeld(h *heldRead, l layer.Layer, wantDigest string, wantSize int64) {
+	if h == nil {
+		return
+	}
+	_, _ = h.sf.n().Getattr()
+	now := l.Info()
+	if rr2, dest2, errno := c.readState(h.sf); errno == 0 {
+		if b, st := rr2.Bytes(dest2); st == fuse.OK {
+			c.judgeStateData(append([]byte(nil), b...), nil, nil, wantDigest, wantSize, "later read")
+		}
+		rr2.Done()
+	}
+	data, st := h.rr.Bytes(h.dest)
+	if st != fuse.OK {
+		c.violate("state:file-unreadable", fmt.Sprintf("held Read(state file) status %v", st), nil)
+		return
+	}
+	data = append([]byte(nil), data...)
+	h.rr.Done()
+	c.judgeStateData(data, &h.before, &h.after, wantDigest, wantSize, "reply extracted after later requests on the state file")
+	c.r.Count("state_replies_extracted_late", 1)
+	if now.FetchedSize != h.after.FetchedSize {
+		c.r.Count("state_replies_extracted_late_after_fetched_size_changed", 1)
+	}
+}
+
+// concurrentState (clause 5b): readers of the state file hold each reply for a moment
+// before extracting it while another goroutine stats the state file and the walker (the
+// caller) reads file data. Every reply must be valid JSON with the right digest and size.
+func (c *capture) concurrentState(sf *vnode, wantDigest string, wantSize int64) (stop func()) {
+	var wg sync.WaitGroup
+	var done atomic.Bool
+	var replies atomic.Int64
+	for g := 0; g < 3; g++ {
+		wg.Add(1)
+		go func() {
+			defer wg.Done()
+			defer func() {
+				if x := recover(); x != nil {
+					c.violate("panic:concurrent-state-file-read", fmt.Sprint(x), nil)
+				}
+			}()
+			for i := 0; i < 400 && !done.Load(); i++ {
+				rr, dest, errno := c.readState(sf)
+				if errno != 0 {
+					c.violate("state:file-unreadable", "concurrent Read(state file) = "+errnoName(errno), nil)
+					return
+				}
+				runtime.Gosched()
+				b, st := rr.Bytes(dest)
+				if st == fuse.OK {
+					c.judgeStateData(append([]byte(nil), b...), nil, nil, wantDigest, wantSize, "concurrent readers, reply extracted after a yield")
+				}
+				rr.Done()
+				replies.Add(1)
+			}
+		}()
+	}
+	wg.Add(1)
+	go func() {
+		defer wg.Done()
+		for i := 0; i < 2000 && !done.Load(); i++ {
+			_, _ = sf.n().Getattr()
+			runtime.Gosched()
+		}
+	}()
+	return func() {
+		done.Store(true)
+		wg.Wait()
+		c.r.Count("state_concurrent_replies_judged", int(replies.Load()))
+	}
 }
